@@ -119,7 +119,7 @@ func genCombLookup(t *rapid.T, pkgs []combPkg) combLookup {
 
 func genC16Comb(t *rapid.T) c16CombCase {
 	c := c16CombCase{Leg: "combined", Trials: combTrials()}
-	ecos := []string{"npm", "npm", "npm", "pypi", "maven"}
+	ecos := []string{"npm", "npm", "pypi", "maven"}
 	np := rapid.IntRange(1, 2).Draw(t, "n_pkgs")
 	for i := 0; i < np; i++ {
 		p := combPkg{}
